@@ -284,7 +284,7 @@ def pipelines():
           "ambiguity_indicator": "amb", "ambiguity_threshold": 0.6, "ambiguity_kernel_size": 3, "vertical_depth": 1,
           "quantile_regularization": 0.9}
     ms = {"multiscale_method": "fixed_zoom_pyramid", "num_scales": 2, "scale_factor": 2, "marge": 1}
-    return {
+    out = {
         "P0": P.name_steps([("matching_cost", P.mc("sad", 3, 2)), ("cost_volume_confidence", amb),
                             ("cost_volume_confidence", risk), ("disparity", P.WTA), ("refinement", P.VFIT),
                             ("validation", P.CROSS)]),
@@ -301,6 +301,26 @@ def pipelines():
         "Q2": P.name_steps([("matching_cost", P.mc("zncc", 5, 1)), ("disparity", P.WTA), ("refinement", P.QUAD),
                             ("validation", P.CROSS_MCCNN), ("filter", P.BILATERAL)]),
     }
+    # "other pipelines" built from the SAME step classes as P0/P1/P2 with every numeric parameter moved to another
+    # in-domain value that keeps derived sizes equal (e.g. bilateral sigma_space 0.7 -> 0.9: same window width 3):
+    # exposes class-level caches keyed by less than the full parameter set
+    amb2 = {"confidence_method": "ambiguity", "eta_max": 0.5, "eta_step": 0.05}
+    risk2 = {"confidence_method": "risk", "eta_max": 0.5, "eta_step": 0.05}
+    ib2 = dict(ib, possibility_threshold=0.8, ambiguity_threshold=0.5, quantile_regularization=0.8, vertical_depth=2)
+    out["X0"] = P.name_steps([("matching_cost", P.mc("sad", 3, 4)), ("cost_volume_confidence", amb2),
+                              ("cost_volume_confidence", risk2),
+                              ("disparity", {"disparity_method": "wta", "invalid_disparity": -5}),
+                              ("refinement", P.VFIT), ("validation", dict(P.CROSS, cross_checking_threshold=0.5))])
+    out["X1"] = {"matching_cost": P.mc("zncc", 3, 2), "cost_volume_confidence.amb": amb2,
+                 "cost_volume_confidence": ib2, "disparity": P.WTA,
+                 "filter": {"filter_method": "median_for_intervals", "filter_size": 5}, "refinement": P.QUAD}
+    out["X2"] = P.name_steps([("matching_cost", P.mc("census", 5, 2)),
+                              ("aggregation", {"aggregation_method": "cbca", "cbca_intensity": 20.0, "cbca_distance": 2}),
+                              ("disparity", P.WTA),
+                              ("filter", {"filter_method": "bilateral", "sigma_color": 3.0, "sigma_space": 0.9}),
+                              ("validation", dict(P.CROSS_SGM, cross_checking_threshold=2.0)),
+                              ("multiscale", dict(ms, marge=2)), ("refinement", P.VFIT)])
+    return out
 
 
 def inputs(seed=0, ny=20, nx=26):
@@ -459,7 +479,7 @@ def spaces(tier, seed):
     from mc.engine import core  # pylint: disable=import-outside-toplevel
 
     core.setup_env()
-    names = ["P0", "P1", "P2", "Q1", "Q2"]
+    names = ["P0", "P1", "P2", "Q1", "Q2", "X0", "X1", "X2"]
     ref = subprocess_digests(names, 1, "workqueue", "True")
     for nme in names:
         if ref[nme]["inputs"] != "|":
@@ -471,12 +491,13 @@ def spaces(tier, seed):
                 if par == "False" and (layer != "omp" or nt not in (1, 16)):
                     continue  # without parallelisation the layer and thread count are not used; two probes
                 matrix.append({"kind": "matrix", "threads": nt, "layer": layer, "parallel": par,
-                               "pipelines": names if tier == "thorough" else ["P0", "P1", "P2"], "ref": ref})
+                               "pipelines": names[:5] if tier == "thorough" else ["P0", "P1", "P2"], "ref": ref})
     e4 = kernel_cases(tier, seed)
     maxlen = 3 if tier == "quick" else 4
     hist = []
     for P in (["P0", "P2"] if tier == "quick" else ["P0", "P1", "P2"]):
-        ops = [f"cM1{P}", f"rM1{P}", "cM2Q1", "rM2Q1", "cM2Q2", "rM2Q2"]
+        other = "X" + P[1]
+        ops = [f"cM1{P}", f"rM1{P}", "cM2Q1", "rM2Q1", "cM2Q2", "rM2Q2", f"cM2{other}", f"rM2{other}"]
         for ln in range(1, maxlen + 1):
             for w in itertools.product(ops, repeat=ln):
                 if f"rM1{P}" not in w:
